@@ -224,7 +224,24 @@ def run(prog: Program, chk: Check):
     follow_static = lambda e: not (e.src in dyn_ids and e.kind != "exc")
     # static path must complete the loop: connected reachable only via the loop's 'done' edge
     r = flow.reach(g, [g.entry.id], follow=lambda e: follow_static(e) and not (e.src == lp.id and e.kind == "done"))
-    G.decide(conn[0].id not in r, fkey(cm, "loop-completed"), where(cm, lp.ast), "static admission passes the exhausted uniqueness loop",
+    completed = conn[0].id not in r
+    if not completed:
+        # the loop may be left by `break` with a flag that the code after it turns into a refusal: follow the paths that
+        # took a break out of this loop (ghost mark) and see whether any of them still reaches connected=True
+        def nearest_loop(a):
+            for p_ in ancestors(a):
+                if isinstance(p_, (ast.For, ast.While)):
+                    return p_
+            return None
+
+        brk = {n.id for n in g.nodes if isinstance(n.ast, ast.Break) and nearest_loop(n.ast) is lp.ast}
+        lbody = {n.id for n in g.nodes if n.ast is not None and any(a is lp.ast for a in ancestors(n.ast))}
+        leaves_other = [e for n in lbody | {lp.id} for e in g.succ[n] if e.dst not in lbody and e.dst != lp.id and e.kind != "exc" and not (e.src == lp.id and e.kind == "done")
+                        and e.src not in brk and e.dst != g.exit.id]
+        if brk and not leaves_other:
+            gsm = flow.guard_states(g, edge_filter=follow_static, marks=lambda e: "_left_by_break" if e.src in brk else None)
+            completed = not any(any(getattr(ex, "id", None) == "_left_by_break" for ex, _ in p_) for p_ in gsm.at(conn[0]))
+    G.decide(completed, fkey(cm, "loop-completed"), where(cm, lp.ast), "static admission passes the exhausted uniqueness loop",
              "connected=True is reachable for a static id without completing the loop over all modules")
     # per iteration: continuing to the next module requires no id / name conflict
     id_goal = guards.parse(f"{mv} is {mp} or not ({mv}.mod_id == {mp}.mod_id) or (not {mv}.unique and not {mp}.unique)")
